@@ -294,6 +294,30 @@ impl ResumeState {
             .collect()
     }
 
+    /// Whether `relative_path` was completed by the interrupted run AND the source file still is
+    /// the one that was transferred then: same size and the recorded `xxhash3:<hex>` checksum.
+    /// A file edited since must be planned again, not skipped.
+    pub fn is_still_completed(&self, relative_path: &Path, source_path: &Path, size: u64) -> bool {
+        let Some(done) = self
+            .completed_files
+            .iter()
+            .find(|f| f.relative_path == relative_path)
+        else {
+            return false;
+        };
+        if done.size != size {
+            return false;
+        }
+        let verifier = crate::integrity::IntegrityVerifier::new(
+            crate::integrity::ChecksumType::Fast,
+            false,
+        );
+        match verifier.compute_file_checksum(source_path) {
+            Ok(sum) => done.checksum == format!("xxhash3:{}", sum.to_hex()),
+            Err(_) => false,
+        }
+    }
+
     /// Get progress information
     pub fn progress(&self) -> (usize, usize) {
         (self.completed_files.len(), self.total_files)
